@@ -1,0 +1,39 @@
+//go:build verif
+
+package tls
+
+// Verification hooks of the C34 harness (concurrent use of a tls.Conn).  They are used on the
+// PEER of the connection under test only: a zcrypto endpoint has no public way to start a
+// TLS 1.3 key update or to ask for a TLS <= 1.2 renegotiation, and the read path of the
+// connection under test (handleKeyUpdate, handleRenegotiation) can only be exercised by a peer
+// that does.  Nothing here is called on the connection under test.
+
+import "errors"
+
+// VerifConnSendKeyUpdate sends a TLS 1.3 KeyUpdate message on c (update_requested as given) and
+// switches c's sending traffic secret to the next generation, as RFC 8446 section 4.6.3 demands
+// of the sender.
+func VerifConnSendKeyUpdate(c *Conn, requestUpdate bool) error {
+	if c.vers != VersionTLS13 {
+		return errors.New("tls: verif: KeyUpdate needs TLS 1.3")
+	}
+	suite := cipherSuiteTLS13ByID(c.cipherSuite)
+	if suite == nil {
+		return errors.New("tls: verif: no TLS 1.3 cipher suite")
+	}
+	c.out.Lock()
+	defer c.out.Unlock()
+	msg := &keyUpdateMsg{updateRequested: requestUpdate}
+	if _, err := c.writeRecordLocked(recordTypeHandshake, msg.marshal()); err != nil {
+		return err
+	}
+	c.out.setTrafficSecret(suite, suite.nextTrafficSecret(c.out.trafficSecret))
+	return nil
+}
+
+// VerifConnSendHelloRequest sends a HelloRequest handshake message on c (a TLS <= 1.2 server asking
+// its client to renegotiate).
+func VerifConnSendHelloRequest(c *Conn) error {
+	_, err := c.WriteRecord(recordTypeHandshake, (&helloRequestMsg{}).marshal())
+	return err
+}
